@@ -3,6 +3,7 @@ package govc
 // Evaluation of specification expressions to terms.
 
 import (
+	"golang.org/x/tools/go/ssa/ssautil"
 	"fmt"
 	"go/types"
 	"math/big"
@@ -240,6 +241,51 @@ func (env *SpecEnv) eval(e *Expr) *SV {
 		}
 		return &SV{T: MkSlice(SArr(a.T), Add(SOff(a.T), lo), Sub(hi, lo), Sub(SCap(a.T), lo)), Ty: a.Ty}
 	case "call":
+		if e.Name == "cellof" && len(e.Args) == 1 {
+			// cellof(pkg.Var): the current content of a package-level variable of map, pointer or basic
+			// type, read from the heap (a bare pkg.Var denotes the variable as a constant, which is what
+			// every function except the package initializer sees)
+			name := e.Args[0].String()
+			var pkgName, v string
+			if i := strings.Index(name, "."); i >= 0 {
+				pkgName, v = name[:i], name[i+1:]
+			} else {
+				v = name
+			}
+			for _, p := range x.eng.Prog.AllPackages() {
+				if pkgName == "" {
+					if env.pkg == nil || p.Pkg != env.pkg {
+						continue
+					}
+				} else if p.Pkg.Name() != pkgName {
+					continue
+				}
+				if g, ok := p.Members[v].(*ssa.Global); ok {
+					pt := g.Type().(*types.Pointer).Elem()
+					srt := x.eng.SortOf(pt)
+					t := x.readPlace(env.heap, &Place{Comp: cellComp(srt, isRefType(pt)), Elem: srt, Ref: x.globalRef(g), Ty: pt})
+					return &SV{T: t, Ty: pt}
+				}
+			}
+			stale("cellof: unknown package-level variable %s", name)
+		}
+		if e.Name == "fn" && len(e.Args) == 1 && e.Args[0].Kind == "str" {
+			// fn("full SSA name"): the function value of a named function, method or method thunk
+			want := e.Args[0].Name
+			if allFuncsByName == nil {
+				allFuncsByName = map[string]*ssa.Function{}
+				for f := range ssautil.AllFunctions(x.eng.Prog) {
+					allFuncsByName[f.String()] = f
+				}
+			}
+			// a method thunk exists in the program only while some code takes the method expression;
+			// the name is accepted when the method itself exists
+			base := strings.TrimSuffix(strings.TrimSuffix(want, "$thunk"), "$bound")
+			if f, ok := allFuncsByName[base]; ok {
+				return &SV{T: x.eng.UF("fn$"+ident(want), SRef), Ty: f.Type()}
+			}
+			stale("fn: no function named %s", want)
+		}
 		if e.Name == "entry" && len(e.Args) == 1 {
 			// entry(e): e in the function's entry state - parameters have their entry values (they
 			// may be reassigned in the body), the heap is the entry heap; bound variables stay visible
@@ -1176,6 +1222,8 @@ func (x *Exec) errIs(e, target *Term) *Term {
 	x.eng.DeclareUF("errIs", SBool, SInt, SInt)
 	return App("errIs", SBool, e, target)
 }
+
+var allFuncsByName map[string]*ssa.Function
 
 // ---------- views and validity ----------
 
